@@ -54,6 +54,8 @@ def gen_cases(tier, seed):
     hostile = workload.rotate([i for i in workload.HOSTILE if i in isos], seed)
     nrow = 4 if tier == "quick" else 20
     rows = (hostile[:nrow - 1] + ["SWT"]) if "SWT" not in hostile[:nrow - 1] else hostile[:nrow]
+    # the three countries whose options the repository rewrites on purpose are always exercised
+    rows = rows + [i for i in ("SLV", "ALB", "ECU") if i not in rows]
     cases = []
     for iso in rows + ["WOR"]:
         cases.append({"kind": "values", "iso": iso, "gen_seed": seed, "id": "values/%s" % iso})
@@ -609,6 +611,46 @@ def end_to_end_rejection(case):
                 cx.bad("computation_before_rejection", "%s ran before %s=%r was rejected" % (k, f, v), family=f)
         if o != before:
             cx.bad("caller_options_modified", "run_model_no_trade changed the caller's options while rejecting %s" % f, family=f)
+    # one option dictionary serves every country of a multi-country call: each country must get the constants its options
+    # describe, whatever country was handled before it (the optimisation itself is stubbed out here)
+    from src.scenarios.run_scenario import ScenarioRunner
+
+    seen = []
+    orig_set = ScenarioRunner.set_depending_on_option
+    orig_run = ScenarioRunner.run_and_analyze_scenario
+
+    class _R:
+        percent_people_fed = 50.0
+
+    def w_set(self, scenario_option, country_data=None):
+        r = orig_set(self, scenario_option, country_data=country_data)
+        seen.append((country_data["iso3"], copy.deepcopy(r[0])))
+        return r
+
+    ScenarioRunner.set_depending_on_option = w_set
+    ScenarioRunner.run_and_analyze_scenario = lambda self, *a, **k: _R()
+    try:
+        for scen, shut in (("seaweed", "continued"), ("all_resilient_foods", "long_delayed_shutoff")):
+            o = copy.deepcopy(base)
+            o.update(scenario=scen, shutoff=shut, cull="do_eat_culled")
+            before = copy.deepcopy(o)
+            del seen[:]
+            cx.n["e2e_multi_country_calls"] += 1
+            ScenarioRunnerNoTrade().run_model_no_trade(title="t", create_pptx_with_all_countries=False, show_country_figures=False, show_map_figures=False,
+                                                      add_map_slide_to_pptx=False, scenario_option=o, countries_list=["ALB", "SLV", "ECU", case["iso"], "ZWE", "VNM"], return_results=True)
+            if o != before:
+                cx.bad("caller_options_modified", "run_model_no_trade over several countries changed the caller's options: %s" % {k: (before.get(k), o.get(k)) for k in set(o) | set(before) if o.get(k) != before.get(k)})
+            want = SHUTOFF[shut]
+            for iso, c in seen:
+                if iso in ("ALB", "SLV", "ECU"):
+                    continue
+                cx.n["e2e_country_constants_checked"] += 1
+                fw = c["NMONTHS"] if want[0] == "N" else want[0]
+                if c["DELAY"]["FEED_SHUTOFF_MONTHS"] != fw:
+                    cx.bad("option_value_sets_wrong_constant", "multi-country call, %s handled after other countries: shutoff=%s gives FEED_SHUTOFF_MONTHS=%r, documented %r" % (iso, shut, c["DELAY"]["FEED_SHUTOFF_MONTHS"], fw), family="shutoff", value=shut, after_other_countries=True)
+    finally:
+        ScenarioRunner.set_depending_on_option = orig_set
+        ScenarioRunner.run_and_analyze_scenario = orig_run
     # a valid run leaves the caller's dictionary alone, too
     o = copy.deepcopy(base)
     o["kg_meat_per_large_animal"] = 300
